@@ -276,7 +276,9 @@ PROPS = {
                            'or failed call; C19_count <= desired-min; C19_k8s_after_cloud / C19_scan_batches: Node deletions only after the whole batch was accepted, for both batches of a scan; C19_not_member_*: the error ends the scan and makes RunOnce fatal. '
                            'Tie: awsops (provider level) and hist (controller level) + monitors.',
                 level_note=LEVEL_NOTE),
-    'C12': dict(level='proof', module='EscProofs.P.C12', streams=hist('C12', focus='multi'),
+    'C12': dict(level='proof', module='EscProofs.P.C12', streams=dict(quick=[('scenario', ['-dir', '@ROOT/corpus/C12']), ('hist', ['-n', 400, '-scans', 10, '-focus', 'multi']), ('hist', ['-n', 16, '-scans', 6, '-focus', 'fleet'])],
+                             thorough=[('scenario', ['-dir', '@ROOT/corpus/C12']), ('hist', ['-n', 20000, '-scans', 12, '-focus', 'multi']), ('hist', ['-n', 300, '-scans', 8, '-focus', 'fleet'])],
+                             search=[('hist', ['-n', 1500, '-scans', 12, '-focus', 'multi']), ('hist', ['-n', 60, '-scans', 8, '-focus', 'fleet'])]),
                 aspects=['hist:journal', 'hist:reccount', 'hist:outcome'], monitors=['C12'], py_monitor=c12_twin_monitor,
                 theorems=['Esc.P.C12_targets', 'Esc.P.C12_frame', 'Esc.P.C12_containment', 'Esc.P.C12_fatal_kinds', 'Esc.P.scanGroup_gid'],
                 technique='Lean 4 theorem (targets from the journal anatomy; frame lemma for the per-group loop by induction over the configured groups; containment by case analysis of the loop) + differential correspondence on per-group journals with 2-3 groups + monitor + metamorphic twin run of the implementation (same scan on a second controller whose world differs only inside one group; the other groups\' calls and state must be identical)',
@@ -327,9 +329,9 @@ PROPS = {
                            'Tie: taintops (direct calls, stale views, odd taint values, faults) and hist; full objects compared (plus a digest of every unmodelled field); monitor on observed GET/UPDATE pairs.',
                 level_note=LEVEL_NOTE),
     'C20': dict(level='proof', module='EscProofs.P.C20',
-                streams=dict(quick=[('scenario', ['-dir', '@ROOT/corpus/C20']), ('hist', ['-n', 500, '-scans', 8, '-focus', 'faults'])],
-                             thorough=[('scenario', ['-dir', '@ROOT/corpus/C20']), ('hist', ['-n', 30000, '-scans', 10, '-focus', 'faults']), ('hist', ['-n', 160, '-scans', 6, '-focus', 'faults', '-slow'])],
-                             search=[('hist', ['-n', 2500, '-scans', 8, '-focus', 'faults'])]),
+                streams=dict(quick=[('scenario', ['-dir', '@ROOT/corpus/C20']), ('hist', ['-n', 500, '-scans', 8, '-focus', 'faults']), ('hist', ['-n', 16, '-scans', 7, '-focus', 'churn', '-slow'])],
+                             thorough=[('scenario', ['-dir', '@ROOT/corpus/C20']), ('hist', ['-n', 30000, '-scans', 10, '-focus', 'faults']), ('hist', ['-n', 160, '-scans', 6, '-focus', 'faults', '-slow']), ('hist', ['-n', 160, '-scans', 8, '-focus', 'churn', '-slow'])],
+                             search=[('hist', ['-n', 2500, '-scans', 8, '-focus', 'faults']), ('hist', ['-n', 32, '-scans', 8, '-focus', 'churn', '-slow'])]),
                 aspects=['hist:outcome', 'hist:reccount', 'hist:ok', 'panic'], monitors=['C20'],
                 theorems=['Esc.P.C20_outcomes', 'Esc.P.C20_fatal_only_partial', 'Esc.P.C20_contained', 'Esc.P.C20_provider_id_guard', 'Esc.P.C20_ready_bounded',
                           'Esc.P.C12_containment', 'Esc.P.C20_stop_founded', 'Esc.P.tryDelete_notInGroup'],
